@@ -60,6 +60,8 @@ func newWorld(r *Run, rr *randRecorder, cfg Config, ninst int) *World {
 	simfs.Cur = w.fs
 	w.fs.PutDir(cfg.BaseDir, 0o700)
 	w.fs.PutDir("/etc/whawty", 0o755)
+	w.fs.PutDir("/tmp", 0o777) // the system temp directory exists, as on any real machine
+	w.fs.PutDir("/var/tmp", 0o777)
 	for i := 0; i < ninst; i++ {
 		c := cfg
 		if i > 0 {
